@@ -206,6 +206,7 @@ def run(ctx):
     r5(ctx)
     ctx.rule("R6", "template scanner keeps literal text: the position literal fragments are cut from advances only when a variable was consumed (a `$` that is no variable stays in the text)")
     r6(ctx)
+    r6b(ctx)
     ctx.rule("R9", "wherever the matching engine distinguishes variables by their named-only flag, the non-capturing hole (Dropped) and the capture (Capture) of the same sigil count are treated alike")
     r9(ctx)
     ctx.rule("R8", "`$_`/`$$_` accept exactly the nodes `$A`/`$$A` accept: both arms of match_leaf_meta_var reject exactly (named-only variable, unnamed candidate) — decided by evaluating each arm over the four cases")
@@ -389,6 +390,21 @@ def r6(ctx):
                "every assignment lies on the path where split_first_meta_var returned Some" if not bad else
                "the position literal text is cut from is advanced where split_first_meta_var returned None (%s): the text up to and including a `$` that is no variable "
                "(`$ `, `$lower`, `${`) is dropped from fixes and messages" % bad[:2], where=f0.loc())
+
+
+def r6b(ctx):
+    """fix templates are written with the language's meta_var_char (`$`) and are never pre-processed, unlike patterns (expando char):
+    every construction of a template scans for meta_var_char()."""
+    prog = ctx.prog
+    sites = prog.who_calls(r"^ast_grep_core::replacer::template::create_template$")
+    ctx.floor("R6", "create_template call sites", len(sites), 3)
+    for c in sites:
+        roots = deep_roots(prog, c.fn, c.args[1], TRANSPARENT)
+        names = sorted({o.ref.name if o.kind == "call" else o.kind for o in roots})
+        ok = names == ["meta_var_char"]
+        ctx.ob("R6", "%s scans the template for meta_var_char" % c.fn.id, ok, "sigil = lang.meta_var_char()" if ok else
+               "the template is scanned for %s instead of meta_var_char(): in the languages whose expando differs from `$` a string template no longer recognises `$A` (and turns `_A`/`µA` into variables)" % names,
+               where=c.fn.loc(c.line))
 
 
 def r7(ctx):
